@@ -239,4 +239,14 @@ decreasing_by
     | (apply Prod.Lex.left; exact dlookup_lt h)
 end
 
+/-- The configuration with the validation-mode flag erased: the flag only *selects the template*. -/
+def Cfg.core (cfg : Cfg) : Cfg := { cfg with detailed := false }
+
+/-- `converter.structure(o, T)`: accepted value, or `none` when the call raises. -/
+def convStructure (w : World) (cfg : Cfg) (t : Ty) (o : Obj) : Option Obj :=
+  if cfg.detailed then Res.toOption (stD w cfg.core t o) else stF w cfg.core t o
+
+/-- `converter.unstructure(x, unstructure_as=T)` -/
+def convUnstructure (w : World) (cfg : Cfg) (t : Ty) (x : Obj) : Obj := un w cfg.core t x
+
 end CattrsModel
